@@ -44,6 +44,9 @@ def classify(prov, mk):
     origins = prov.origin(h.expr, h.fc)
     labels = {o[0] for o in origins}
     san = h.san
+    if san is not None and (labels & {"SAN_TEXT", "SAN_ATTR"}):
+        wit = [" <- ".join(ch[-3:]) for lab, ch in origins if lab in ("SAN_TEXT", "SAN_ATTR")][:1]
+        return "double-escape", labels, "escaped here and already escaped upstream (%s)" % (wit[0] if wit else "")
     if "SAN_ATTR" in labels and not (labels & DANGEROUS):
         san = san or "attr"
     if "SAN_TEXT" in labels and not (labels & DANGEROUS) and san is None:
@@ -133,6 +136,10 @@ def run(ctx):
                 continue
             if verdict == "safe":
                 ctx.ok("R5.1", key, sample={"hole": h.src, "site": where, "context": mk.ctx, "labels": sorted(labels), "why": wit})
+            elif verdict == "double-escape":
+                ctx.violation("R5.1", key + ":double", "value is sanitised twice: the stored text contains entity references "
+                              "(e.g. '&' is stored as '&amp;amp;') and the reader does not return the caller's string (%s)" % wit,
+                              file=h.fc.fn.file, line=getattr(h.expr, "lineno", None), witness=wit)
             elif verdict == "text-escape-in-attr":
                 ctx.violation("R5.1", key + ":quote", "value is only escape()d (quotes stay) but sits in a %s attribute value: a "
                               "double quote in it ends the attribute (%s)" % ("double-quoted" if mk.ctx.endswith('"') else "quoted", wit),
